@@ -393,6 +393,44 @@ def range_descs(lo: int, hi: int, steps: List[int]) -> List[dict]:
     return out
 
 
+def func_t_descs(ctx) -> List[dict]:
+    """time dependent FunctionPTs instantiated from a scope that has an entry literally called `t` (legal: `t` is the bound
+    time variable inside the formula and an ordinary name elsewhere): as an extra parameter, as the duration of a
+    neighbouring wait, as a loop index, as a mapped name, as a repetition count; no ArithmeticPT / ParallelChannelPT in the
+    tree (outside the class of PF-14).  Integral / initial / final / pad_to against the REAL program."""
+    out = []
+    forms = ['a + b*t', 'a - t/2', 'b*t', 'a + b*(t - 1)']
+
+    def func(expr, dur='2'):
+        return {'k': 'func', 'ch': 'A', 'dur': dur, 'expr': expr, 'meas': [], 'cons': []}
+    for fi, expr in enumerate(forms):
+        f = func(expr)
+        wait = {'k': 'const', 'dur': 't', 'amps': [['A', '0.125']], 'meas': []}
+        lvl = {'k': 'const', 'dur': '1', 'amps': [['A', 't/4']], 'meas': []}
+        shapes = {
+            'extra': (f, {'t': 1.5}),
+            'extra0': (f, {'t': 0}),
+            'wait': ({'k': 'seq', 'subs': [wait, f], 'meas': [], 'cons': []}, {'t': 0.5}),
+            'wait-after': ({'k': 'seq', 'subs': [f, wait], 'meas': [], 'cons': []}, {'t': 2}),
+            'index': ({'k': 'for', 'body': {'k': 'seq', 'subs': [lvl, f], 'meas': [], 'cons': []}, 'idx': 't',
+                       'range': ['1', 'n', '1'], 'meas': [], 'cons': []}, {'n': 3}),
+            'mapped': ({'k': 'map', 'body': {'k': 'seq', 'subs': [f, lvl], 'meas': [], 'cons': []}, 'pm': [['t', '2*u']],
+                        'mm': None, 'cm': None}, {'u': 0.75}),
+            'count': ({'k': 'rep', 'body': f, 'count': 't', 'meas': [], 'cons': []}, {'t': 2}),
+            'func-dur-param': (func(expr, 'd'), {'d': 1, 't': 3}),
+        }
+        for name, (spec, params) in shapes.items():
+            params = dict(params)
+            pt_names = {'a': 0.25, 'b': 0.5}
+            for k in pt_names:
+                if k in expr:
+                    params[k] = pt_names[k]
+            out.append({'family': 'given', 'label': 'func-t', 'seed': fi,
+                        'case': {'spec': copy.deepcopy(spec), 'params': params, 'cm': {}, 'mm': None, 'single': [],
+                                 'pad': '0.5' if name not in ('extra0',) else None}})
+    return out
+
+
 POINT_CHANS = ['X', 'Y', 'Z', 'W']
 
 
@@ -503,6 +541,11 @@ def make_case(desc: dict) -> Optional[dict]:
             break
         case['cm'], case['mm'], case['single'] = {}, None, []
         case['pad'] = rng.choice([F(1, 2), F(3, 4), F(2), F(1, 4)]) if rng.random() < 0.6 else None
+        if rng.random() < desc.get('t_param_p', 0.0):
+            # a scope entry literally called `t` while FunctionPTs are instantiated (an ordinary parameter / loop index /
+            # mapped name renamed to `t`, or an extra value): `t` is the bound time variable inside a FunctionPT's formula
+            # and an ordinary name everywhere else.  Only trees outside the class of PF-14 (C03) qualify.
+            case = dict(ptgen.scope_with_t(rng, case) or case, pad=case['pad'])
         return case
     if fam == 'exhaustive':
         case = ptgen.exhaustive_case(desc['spec'])
@@ -1529,7 +1572,10 @@ def run(ctx: core.Ctx):
                 'rejects); every case with pad_to; (4b) multi channel point templates with per-channel different (vector) entry '
                 'voltages instantiated with a channel dropped that is not the last one (MappingPT or '
                 'create_program(channel_mapping), further drops / renames, plain / sequence / repetition / iteration / atomic '
-                'multi channel): quantities of the remaining channels and pad_to against the REAL program; (5) shared objects / query history: one atom OBJECT (every atomic class, hand-made and '
+                'multi channel): quantities of the remaining channels and pad_to against the REAL program; (4c) half of the random '
+                'trees outside the PF-14 class (no ArithmeticPT / ParallelChannelPT) with a scope entry literally called t '
+                '(a parameter / loop index / mapped name renamed to t, or an extra value) plus 32 hand-made time dependent '
+                'function templates next to a wait / level / index / count / mapping called t; (5) shared objects / query history: one atom OBJECT (every atomic class, hand-made and '
                 'random) used by several templates (two loops with different ranges, parallel channel, repetition, mapping, '
                 'sequence, arithmetic, stand-alone), integral / initial_values / final_values / pad_to queried in varying '
                 'orders and repeatedly, result dicts mutated by the caller in between: every answer must equal the answer of a '
@@ -1563,7 +1609,8 @@ def run(ctx: core.Ctx):
     base = ctx.fork('random').getrandbits(48)
     depth = 4 if ctx.quick else 5
     for i in range(ctx.n(600, 12000)):
-        descs.append({'family': 'random', 'seed': base + i, 'depth': depth})
+        descs.append({'family': 'random', 'seed': base + i, 'depth': depth, 't_param_p': 0.5 if i % 2 else 0.0})
+    descs += func_t_descs(ctx)
     base = ctx.fork('malformed').getrandbits(48)
     for i in range(ctx.n(50, 1200)):
         descs.append({'family': 'malformed', 'seed': base + i})
